@@ -192,7 +192,12 @@ def main(argv=None):
             print("%-8s %-7.3fs %s" % (o.status, o.time_s, o.name))
     for line in run.known:
         print(line)
+    seen_v = set()
     for v in run.violations:
+        key = (v["replay"], v["confirmed"])
+        if key in seen_v:
+            continue
+        seen_v.add(key)
         if v["confirmed"]:
             print("VIOLATION property=%s replay=%s" % (pid, v["replay"]))
         else:
